@@ -367,3 +367,27 @@ def check(P: Project, R: Report) -> None:
     ver = [s for s in walk_local(upd.node) if isinstance(s, ast.Assign) and ast.unparse(s.targets[0]) == "self.protocol_version"]
     ok = len(mode) == 1 and len(ver) == 1 and ast.unparse(mode[0].value) == f"supports_batching({pv})" and ast.unparse(ver[0].value) == pv
     R.ob("R5", "update_protocol_version recomputes batching_enabled from the same value", ok, upd.where, "")
+
+    # ------------------------------------------------------------------ R6: "the mode belonging to that version"
+    from . import c13
+
+    sub13 = Report(prop="C13", tier=R.tier)
+    undecided13 = None
+    try:
+        c13.check(P, sub13)
+    except AnalysisError as e:
+        undecided13 = str(e)
+    except Exception as e:  # an early stop after a finding of the sibling: what it produced so far stands
+        if not sub13.obligations:
+            undecided13 = str(e)
+    r1_13 = [o for o in sub13.obligations if o.rule == "R1"]
+    n6 = len(r1_13)
+    if n6 >= 3 or undecided13 is None:
+        R.rule("R6", "the batching mode a tracked client ends up in is the one that belongs to the recorded version: the version→mode function the tracker calls is the calendar comparison with 2025-06-18 (the region obligations of C13-R1, read here for the clause 'a tracked client's batching mode is the one belonging to that version')")
+        for o in r1_13:
+            R.ob("R6", "mode of a version: " + o.key, o.ok, o.where, o.detail)
+    if n6 < 3 and undecided13 is not None:
+        # the function is C13's subject; where its rules cannot read it, that check says so (exit 2) and this clause is left to it
+        R.notes.append(f"R6 not evaluated: the version→mode function is written in a shape C13's rules cannot read ({undecided13[:120]})")
+    else:
+        R.need(n6 >= 3, "anchor: the region obligations of the version→mode function were not produced")
